@@ -340,6 +340,7 @@ class Check:
         t0 = time.time()
         rng = random.Random(self.seed * 1000003 + int(self.ident[1:]))
         build = ensure_built(self.ident, self.extra_bins)
+        cov = _start_coverage(self) if (self.tier == "thorough" or os.environ.get("VERIF_COVERAGE")) and not args.replay else None
         if args.replay:
             return self.do_replay(args.replay, build)
         violations = []      # (path, suffix)
@@ -464,6 +465,8 @@ class Check:
                               "impl_obs": disagree_first[1], "model_obs": disagree_first[2]}
                     path = self.write_replay("no-failing-input-found", disagree_first[0], detail)
                 violations.append((path, " no-failing-input-found"))
+        if cov is not None:
+            report["extra"]["anchor_coverage"] = _stop_coverage(cov, self)
         if self.tier == "thorough" and build.ok:
             rc, out = _sh(f"timeout 1500 coqchk -silent -o -Q theories VF {self.coqchk_modules()} 2>&1 | tail -30", 1600,
                           os.path.join(VERIF, "coq"))
@@ -549,6 +552,47 @@ class Check:
               "violations": nviol}
         with open(os.path.join(VERIF, "evidence", f"{self.ident}.json"), "w") as f:
             json.dump(ev, f, indent=1, default=repr)
+
+
+def _anchor_files(ident):
+    for line in open(os.path.join(VERIF, "properties.jsonl")):
+        d = json.loads(line)
+        if d["id"] == ident:
+            return [os.path.join(REPO, f) for f in d["anchors"]["files"]]
+    return []
+
+
+def _start_coverage(check):
+    """line/branch coverage of the property's anchor files while the real code runs (evidence only)"""
+    if getattr(check, "no_coverage", False):
+        return None
+    try:
+        import coverage
+        os.environ.setdefault("COVERAGE_CORE", "sysmon")
+        files = _anchor_files(check.ident)
+        if not files:
+            return None
+        c = coverage.Coverage(data_file=None, branch=True, include=files, config_file=False)
+        c.start()
+        return c
+    except Exception:
+        return None
+
+
+def _stop_coverage(c, check):
+    out = {}
+    try:
+        c.stop()
+        for f in _anchor_files(check.ident):
+            try:
+                (_fn, stmts, _excl, missing, _fmt) = c.analysis2(f)
+                out[os.path.relpath(f, REPO)] = {"statements": len(stmts), "missing": len(missing),
+                                                 "percent": round(100.0 * (len(stmts) - len(missing)) / max(1, len(stmts)), 1)}
+            except Exception as ex:
+                out[os.path.relpath(f, REPO)] = {"error": repr(ex)[:100]}
+    except Exception as ex:
+        out["error"] = repr(ex)[:200]
+    return out
 
 
 def _jsonable(o):
